@@ -467,7 +467,27 @@ def rule_e8(ctx):
     pb, pt = pushes[0]
     result = {(r, tuple(p)) for (r, p) in body.trace_operand(pt["args"][0])}
     if not all(r[0] == "agg" for (r, p) in result):
-        raise AnchorMissing("E8: the environment mux_envs pushes scopes on is not a fresh one")
+        # the result starts as a copy of the outermost scope of an operand (and the walk skips that scope): sound exactly when
+        # nothing that a branch can assign to lives in the outermost scope - the consts do, parameters must not
+        if not all(r[0] == "call" and str(r[2]).endswith("outermost_scope") for (r, p) in result):
+            raise AnchorMissing("E8: the environment mux_envs pushes scopes on is neither a fresh one nor the outermost scope of an operand")
+        eb = ctx.body(C02.fn_of(ctx, C02.EXPR_COMPILE)["id"])
+        bad_lets = []
+        for b, t in eb.calls():
+            if mir.callee(t) != ENV_LET or eb.blocks[b]["cleanup"]:
+                continue
+            env_roots = eb.trace_operand(t["args"][0], through={})
+            if any(r[0] == "call" and str(r[2]).endswith("outermost_scope") for (r, p) in env_roots):
+                pushed = [pb2 for pb2, pt2 in eb.calls() if mir.callee(pt2) == ENV_PUSH and eb.trace_operand(pt2["args"][0], through={}) == env_roots and eb.dominates(pb2, b)]
+                if not pushed:
+                    bad_lets.append(t)
+        if bad_lets:
+            res.bad(Finding("E8", MUX_ENVS, "the outermost scope is not merged although call parameters are bound in it",
+                            "mux_envs copies the outermost scope from one operand instead of merging it, and the lowering of a call binds the callee's parameters directly in the outermost "
+                            "scope of the callee's environment (no scope of their own): an assignment to a `mut` parameter inside an if / match of the called function ignores the condition",
+                            bad_lets[0]["sp"]))
+            return res
+        res.ok({"clause": "outermost scope", "verdict": "copied from an operand; only consts live there (call parameters get a scope of their own)"})
     # scope i of the result is merged from scope i of both operands: a binding is looked up in the scope map of the pair that is
     # being merged, never through Env::get (which answers with the innermost visible binding of the name, i.e. another scope's)
     for b, t in body.calls():
